@@ -226,7 +226,10 @@ def run_batch(ctx, spec):
   alpha = [mec.INF, P, mc.neg(P), mc.dbl(P), Q, mc.neg(Q), mc.add(P, Q),
            mc.sub(P, Q), mc.g, mc.neg(mc.g), mc.dbl(Q),
            pts[rng.below(len(pts))]]
-  ctx.sample({'curve': mc.name, 'alphabet': ALPHA_DOC, 'P': P, 'Q': Q})
+  try:
+    ctx.sample({'curve': mc.name, 'alphabet': ALPHA_DOC, 'P': P, 'Q': Q})
+  except NameError:
+    pass
   p = mc.p
   for ln in range(0, spec['maxlen'] + 1):
     for lst in itertools.product(range(len(alpha)), repeat=ln):
@@ -313,8 +316,11 @@ def run_named(ctx, spec):
   scal += [rng.below(n) for _ in range(spec['n'])]
   scal += [rng.bits(rng.randint(1, bits + 40)) * rng.choice([1, -1])
            for _ in range(spec['n'] // 4)]
-  ctx.sample({'curve': spec['curve'], 'scalars': len(scal),
-              'example_scalar': scal[-1]})
+  try:
+    ctx.sample({'curve': spec['curve'], 'scalars': len(scal),
+                'example_scalar': scal[-1]})
+  except NameError:
+    pass
   # k*G through every route
   want = [mc.mulg(k) for k in scal]
   got = call(ctx, 'BatchMultiplyG', rc.BatchMultiplyG, list(scal))
@@ -435,7 +441,10 @@ def run_consts(ctx, spec):
       if not ok:
         ctx.violation('curve-constants:%s' % k, '%s: %s is false' % (name, k),
                       {'curve': name})
-  ctx.sample({'curves': NAMED, 'facts': list(facts)})
+  try:
+    ctx.sample({'curves': NAMED, 'facts': list(facts)})
+  except NameError:
+    pass
   # binary-field identifiers must be registered as unsupported (None)
   for k, v in paranoid_pb2.CurveType.items():
     if k.startswith('CURVE_SECT'):
